@@ -351,6 +351,12 @@ impl RecordSet {
             //   everything under it (via DNAME).
             RecordType::CNAME | RecordType::ANAME => {
                 assert!(self.records.len() <= 1);
+                // replacing the record by an identical one (TTL included) is not an update
+                if let Some(existing) = self.records.first() {
+                    if *existing == record && existing.ttl == record.ttl {
+                        return false;
+                    }
+                }
                 self.records.clear();
             }
             _ => (),
